@@ -2,6 +2,7 @@ package nfstypes
 
 import (
 	"github.com/mit-pdos/go-nfsd/verifrt"
+	"github.com/zeldovich/go-rpcgen/rfc1813"
 	"github.com/zeldovich/go-rpcgen/xdr"
 )
 
@@ -141,4 +142,91 @@ func vU32s(name string) []uint32 {
 		out[i] = verifrt.U32(name)
 	}
 	return out
+}
+
+// ---- declared maximum lengths of the variable-length types (the .x file: filename3<>, nfspath3<>,
+// opaque data<> unbounded; nfs_fh3 opaque<64>; MOUNT fhandle3<64>, dirpath<1024>, name<255>): at the
+// lengths around every bound that occurs in the protocol, nfstypes and rfc1813 agree on whether the value
+// can be encoded, on the bytes, and the bytes decode back. (The per-type harnesses use short
+// representative lengths; a bound changed by a constant is only visible at these lengths.)
+func VerifXdrBounds() {
+	n := verifrt.Choose("n", 1025, 64, 65, 255, 256, 1024, 4096)
+	first := verifrt.U8("first")
+	raw := make([]byte, n)
+	raw[0] = first
+	s := string(raw)
+	var mine, ref []byte
+	var e1, e2 error
+	which := verifrt.Choose("type", 0, 1, 2, 3, 4, 5, 6)
+	switch which {
+	case 0:
+		a, b := Filename3(s), rfc1813.Filename3(s)
+		mine, e1 = xdr.EncodeBuf(&a)
+		ref, e2 = xdr.EncodeBuf(&b)
+	case 1:
+		a, b := Nfspath3(s), rfc1813.Nfspath3(s)
+		mine, e1 = xdr.EncodeBuf(&a)
+		ref, e2 = xdr.EncodeBuf(&b)
+	case 2:
+		a, b := Dirpath3(s), rfc1813.Dirpath3(s)
+		mine, e1 = xdr.EncodeBuf(&a)
+		ref, e2 = xdr.EncodeBuf(&b)
+	case 3:
+		a, b := Name3(s), rfc1813.Name3(s)
+		mine, e1 = xdr.EncodeBuf(&a)
+		ref, e2 = xdr.EncodeBuf(&b)
+	case 4:
+		a, b := Fhandle3(raw), rfc1813.Fhandle3(raw)
+		mine, e1 = xdr.EncodeBuf(&a)
+		ref, e2 = xdr.EncodeBuf(&b)
+	case 5:
+		a, b := Nfs_fh3{Data: raw}, rfc1813.Nfs_fh3{Data: raw}
+		mine, e1 = xdr.EncodeBuf(&a)
+		ref, e2 = xdr.EncodeBuf(&b)
+	case 6:
+		a, b := WRITE3args{Data: raw}, rfc1813.WRITE3args{Data: raw}
+		mine, e1 = xdr.EncodeBuf(&a)
+		ref, e2 = xdr.EncodeBuf(&b)
+	}
+	verifrt.Assert((e1 == nil) == (e2 == nil), "encodable-exactly-when-rfc1813-says-so")
+	if e1 == nil && e2 == nil {
+		verifrt.Assert(vBytesEq(mine, ref), "encoding-equals-rfc1813-at-the-bound")
+		var derr error
+		var back uint64
+		switch which {
+		case 0:
+			var d Filename3
+			derr = xdr.DecodeBuf(ref, &d)
+			back = uint64(len(d))
+		case 1:
+			var d Nfspath3
+			derr = xdr.DecodeBuf(ref, &d)
+			back = uint64(len(d))
+		case 2:
+			var d Dirpath3
+			derr = xdr.DecodeBuf(ref, &d)
+			back = uint64(len(d))
+		case 3:
+			var d Name3
+			derr = xdr.DecodeBuf(ref, &d)
+			back = uint64(len(d))
+		case 4:
+			var d Fhandle3
+			derr = xdr.DecodeBuf(ref, &d)
+			back = uint64(len(d))
+		case 5:
+			var d Nfs_fh3
+			derr = xdr.DecodeBuf(ref, &d)
+			back = uint64(len(d.Data))
+		case 6:
+			var d WRITE3args
+			derr = xdr.DecodeBuf(ref, &d)
+			back = uint64(len(d.Data))
+		}
+		verifrt.Assert(derr == nil && back == n, "reference-encoding-decodes-back")
+		verifrt.Cover("accepted")
+	} else {
+		verifrt.Cover("refused")
+	}
+	verifrt.Cover("end")
 }
